@@ -69,7 +69,9 @@ CFG = {
     "C15": dict(pkg="core", test="^TestC15$", shards=(4, 16), checks=(20000, 400000)),
     "C16": dict(pkg="core", test="^TestC16$", shards=(1, 1), checks=(1, 1)),
     "C17": dict(pkg="zexchk", test="^TestC17$", shards=(1, 1), checks=(1, 1)),
-    "C18": dict(pkg="cpm", test="^TestC18$", shards=(8, 16), checks=(1500, 40000)),
+    "C18": dict(pkg="cpm", race=True, shards=(8, 16), tests=[
+        dict(test="^TestC18$", checks=(1500, 40000)),
+        dict(test="^TestC18Concurrent$", checks=(40, 2000))]),
     "C19": dict(pkg="cim", test="^TestC19$", shards=(8, 16), checks=(250, 4000)),
 }
 
